@@ -114,12 +114,14 @@ def run_shard(prop, tier, seed, shard, nshards, out, replay=None):
 
 
 def refill_values(points):
-    """Another valid curve of the same shape: x stretched about its origin, y mirrored and halved (x stays strictly
-    increasing and integral if it was, y stays inside [min y, max y], both ranges change)."""
+    """Another valid curve of the same shape: the x gaps in reverse order and doubled (x stays strictly increasing, and
+    integral if it was; the spacing pattern - not only the scale - changes), y mirrored and halved (stays inside
+    [min y, max y]); both ranges change."""
     import numpy as np
     p = np.array(points, dtype=float)
     x, y = p[:, 0], p[:, 1]
-    p[:, 0] = x[0] + 2.0 * (x - x[0])
+    if len(x) > 1:
+        p[1:, 0] = x[0] + 2.0 * np.cumsum(np.diff(x)[::-1])
     p[:, 1] = (y.max() - y) * 0.5 + y.min()
     return p
 
